@@ -232,25 +232,32 @@ func (r *fragmentingReader) Close() error {
 
 	r.state = fragmentingReadWaitingForArgument
 
-	// If there are more chunks in this fragment, advance to the next chunk.  This is the first chunk
-	// for the next argument
-	if len(r.remainingChunks) > 0 {
-		r.curChunk, r.remainingChunks = r.remainingChunks[0], r.remainingChunks[1:]
-		return nil
-	}
+	for {
+		// If there are more chunks in this fragment, advance to the next chunk.  This is the first chunk
+		// for the next argument
+		if len(r.remainingChunks) > 0 {
+			r.curChunk, r.remainingChunks = r.remainingChunks[0], r.remainingChunks[1:]
+			return nil
+		}
 
-	// If there are no more chunks in this fragment, and no more fragments, we have an issue
-	if !r.hasMoreFragments {
-		r.err = errNoMoreFragments
-		return r.err
-	}
+		// If there are no more chunks in this fragment, and no more fragments, we have an issue
+		if !r.hasMoreFragments {
+			r.err = errNoMoreFragments
+			return r.err
+		}
 
-	// There are no more chunks in this fragments, but more fragments - get the next fragment
-	if r.err = r.recvAndParseNextFragment(false); r.err != nil {
-		return r.err
-	}
+		// There are no more chunks in this fragments, but more fragments - get the next fragment
+		if r.err = r.recvAndParseNextFragment(false); r.err != nil {
+			return r.err
+		}
 
-	return nil
+		// The first chunk of that fragment continues the argument being closed: it must be
+		// empty (the end-of-argument marker), and the next argument starts at the chunk after it.
+		if len(r.curChunk) > 0 {
+			r.err = errMoreDataInArgument
+			return r.err
+		}
+	}
 }
 
 func (r *fragmentingReader) recvAndParseNextFragment(initial bool) error {
